@@ -145,11 +145,11 @@ def generate(path, mod, isa_path, ea_field="f_StepInfo_EA"):
         quant = "forall (Ppc Psp : Z -> Prop) rk m x " + ("" if uses[f["name"]] else "(ea : Z -> Prop) ") + " ".join(n for n, _ in ps) + " s"
         prem = []
         for n, t in ps:
-            if t == "w32":
+            if t == "zw32":
                 prem.append("rng 24 %s" % n)
             elif t in cpusafe.WIDTH:
                 prem.append("rng %d %s" % (cpusafe.WIDTH[t], n))
-        rt = ("rng 24 r" if f["ret"] == "w32" else "rng %d r" % cpusafe.WIDTH[f["ret"]]) if f["ret"] in cpusafe.WIDTH else "True"
+        rt = ("rng 24 r" if f["ret"] == "zw32" else "rng %d r" % cpusafe.WIDTH[f["ret"]]) if f["ret"] in cpusafe.WIDTH else "True"
         call = " ".join([f["name"]] + [n for n, _ in ps] + ["s"])
         return "%s, %sInv (BT Ppc Psp rk m x %s) s -> safe (fun r s' => %s /\\ Inv (BT Ppc Psp rk m x %s) s') (%s)" % (
             quant, "".join(p + " -> " for p in prem), ea, rt, ea, call)
